@@ -56,6 +56,8 @@ def run(ctx):
     _every_call_declares_clobbers(ctx)
     from .c29 import cast_lowering
     cast_lowering(ctx, "C05.R8")
+    _shift_signedness(ctx)
+    _mips_jalr_links(ctx)
     ctx.rule("C05.R5", "riscv large immediates: lui part incremented exactly when bit 11 of the value is set; addi takes the low 12 bits", floor=3)
     project = ctx.project
     dump = ctx.isa()
@@ -431,6 +433,43 @@ def _every_call_declares_clobbers(ctx):
             n += 1
             ctx.ob("C05.R7", "%s:%s" % (mod.rel, q), "the call instruction %s is constructed with clobbers=" % "/".join(sorted(hit)), has, construct="call-clobbers:%s:%s" % (q, "/".join(sorted(hit))), node=c, detail=norm(c)[:80])
     ctx.need(n >= 20, "constructions of call instructions: %d found, at least 20 confirmed by reading" % n)
+
+
+def _shift_signedness(ctx):
+    """R9.  `>>` of a signed IR value is an arithmetic shift (the sign bit is copied in), of an unsigned value a logical one.  A pattern
+    function that is registered for BOTH SHRI<n> and SHRU<n> emits the same instructions for the two unless it looks at the tree it was
+    matched on, so it is wrong for one of them (-8 >> 1 gives 0x7FFFFFFC with a logical shift, 0x80000000u >> 1 gives 0xC0000000 with an
+    arithmetic one)."""
+    import re as _re
+    ctx.rule("C05.R9", "right shifts: no pattern function serves both the signed (SHRI) and the unsigned (SHRU) tree of a width unless it dispatches on the matched tree", floor=8)
+    n = 0
+    for rel, m in sorted(ctx.project.modules.items()):
+        if not rel.startswith("ppci/arch/"):
+            continue
+        for f in [f for f in ast.walk(m.tree) if isinstance(f, ast.FunctionDef)]:
+            trees = [d.args[1].value for d in f.decorator_list if isinstance(d, ast.Call) and norm(d.func).endswith(".pattern") and len(d.args) >= 2 and isinstance(d.args[1], ast.Constant) and isinstance(d.args[1].value, str)]
+            si = sorted(t for t in trees if _re.match(r"SHRI\d+\(", t))
+            su = sorted(t for t in trees if _re.match(r"SHRU\d+\(", t))
+            if not si and not su:
+                continue
+            n += 1
+            par = [a.arg for a in f.args.args]
+            looks = len(par) >= 2 and any(isinstance(x, ast.Attribute) and isinstance(x.value, ast.Name) and x.value.id == par[1] and x.attr in ("name", "value", "ty") for x in ast.walk(f))
+            emits = sorted({norm(c.func).split(".")[-1] for c in ast.walk(f) if isinstance(c, ast.Call) and norm(c.func).split(".")[-1][:1].isupper()})
+            ctx.ob("C05.R9", "%s:%s" % (rel, f.name), "the pattern serves one signedness of `>>` (or dispatches on the matched tree)", not (si and su) or looks, construct="shr-signedness:" + f.name, node=f,
+                   detail="registered for %s and %s; emits %s" % (", ".join(si), ", ".join(su), emits or "a runtime call"))
+    ctx.need(n >= 8, "right-shift pattern functions: %d found" % n)
+
+
+def _mips_jalr_links(ctx):
+    """R10.  MIPS32 `JALR rs` is `JALR $31, rs`: the return address goes to rd; with rd = 0 the instruction is `jr rs` and the callee
+    returns to whatever $ra held before."""
+    ctx.rule("C05.R10", "mips: the register call instruction `jalr rs` links into $ra (rd = 31)", floor=1)
+    cls = ctx.cls("ppci/arch/mips/instructions.py", "Jalr")
+    pat = [n.value for n in cls.body if isinstance(n, ast.Assign) and norm(n.targets[0]) == "patterns" and isinstance(n.value, ast.Dict)]
+    ctx.need(len(pat) == 1, "mips Jalr: patterns not found")
+    d = {try_const(k): try_const(v) for k, v in zip(pat[0].keys, pat[0].values)}
+    ctx.ob("C05.R10", "ppci/arch/mips/instructions.py:Jalr", "rd is 31 ($ra) and the function code is 9 (JALR)", d.get("rd") == 31 and d.get("funct") == 9 and d.get("opcode") == 0, construct="jalr-links", detail="rd = %s, funct = %s" % (d.get("rd"), d.get("funct")))
 
 
 def try_const_(n):
